@@ -30,4 +30,10 @@ Definition lockprogs : list (string * list prog) := [
   ("WithDischarges", [[]])
 ].
 
+(* (function, shares token objects with the receiver, shares the receiver's lock) for every Bundle literal *)
+Definition bundle_literals : list (string * bool * bool) := [
+  ("Clone", false, false);
+  ("Select", true, true)
+].
+
 (* methods of the token list classified as writes (pointer receiver, element assignment or in-place update of tokens): Attenuate, Discharge, Verify *)
